@@ -26,7 +26,7 @@ impl builtins::Command for AliasCommand {
 
         if self.print || self.aliases.is_empty() {
             for (name, value) in context.shell.aliases() {
-                writeln!(context.stdout(), "alias {name}='{value}'")?;
+                writeln!(context.stdout(), "alias {name}={}", quote_alias_value(value))?;
             }
         } else {
             for alias in &self.aliases {
@@ -38,7 +38,7 @@ impl builtins::Command for AliasCommand {
                         .aliases_mut()
                         .insert(name.to_owned(), unexpanded_value.to_owned());
                 } else if let Some(value) = context.shell.aliases().get(alias) {
-                    writeln!(context.stdout(), "alias {alias}='{value}'")?;
+                    writeln!(context.stdout(), "alias {alias}={}", quote_alias_value(value))?;
                 } else {
                     writeln!(
                         context.stderr(),
@@ -52,4 +52,9 @@ impl builtins::Command for AliasCommand {
 
         Ok(exit_code)
     }
+}
+
+/// Quotes an alias value so that the printed definition can be read back by the shell.
+fn quote_alias_value(value: &str) -> String {
+    std::format!("'{}'", value.replace('\'', "'\\''"))
 }
